@@ -281,9 +281,48 @@ fn forced_same_instant(out: &mut Out, pairs: usize) {
     }
 }
 
+/// one timed send racing a consumer that polls with try_receive(), many rounds, nothing sent
+/// afterwards: the event of every round is returned (a command that lands just after a poll
+/// looked at the channel is seen by the next poll)
+fn lone_timer_vs_polling(out: &mut Out, rounds: usize) {
+    use std::sync::atomic::{AtomicU64, Ordering};
+    use std::sync::Arc;
+    let mut q = message_io::events::EventReceiver::<u64>::default();
+    let s = q.sender().clone();
+    let go = Arc::new(AtomicU64::new(0));     // round the sender may send
+    let sent = Arc::new(AtomicU64::new(0));   // round whose send has returned
+    let sender = { let (go, sent) = (go.clone(), sent.clone()); std::thread::spawn(move || {
+        for round in 1..=rounds as u64 {
+            while go.load(Ordering::SeqCst) < round { std::hint::spin_loop(); }
+            for _ in 0..(round % 7) * 13 { std::hint::spin_loop(); }
+            if round % 2 == 0 { s.send_with_timer(round, std::time::Duration::ZERO); } else { s.send_with_timer(round, std::time::Duration::from_micros(50)); }
+            sent.store(round, Ordering::SeqCst);
+        }
+    }) };
+    let mut lost = vec![];
+    for round in 1..=rounds as u64 {
+        go.store(round, Ordering::SeqCst);
+        let mut got = None;
+        let mut deadline: Option<std::time::Instant> = None;
+        loop {
+            if let Some(e) = q.try_receive() { got = Some(e); break; }
+            if deadline.is_none() && sent.load(Ordering::SeqCst) >= round { deadline = Some(std::time::Instant::now() + std::time::Duration::from_millis(300)); }
+            if let Some(d) = deadline { if std::time::Instant::now() > d { break; } }
+        }
+        if got != Some(round) { lost.push((round, got)); if lost.len() >= 3 { break; } }
+    }
+    go.store(u64::MAX, Ordering::SeqCst);
+    let _ = sender.join();
+    if !lost.is_empty() {
+        out.violation(&format!("[C06,C08] a single send_with_timer() from another thread while the consumer polls with try_receive(), nothing sent afterwards: rounds (expected event, returned within 300 ms of the send) {:?} of {} rounds", lost, rounds));
+    }
+    out.add("lone_timer_vs_polling_rounds", rounds as u64);
+}
+
 pub fn run(a: &Args) {
     let mut out = Out::new(&a.out);
     let mut r = Rng::new(a.seed);
+    lone_timer_vs_polling(&mut out, if a.thorough { 200_000 } else { 20_000 });
     forced_same_instant(&mut out, if a.thorough { 20_000 } else { 3_000 });
     flood(&mut out, 8, if a.thorough { 400_000 } else { 100_000 });
     let scenarios: Vec<Scenario> = if a.thorough {
